@@ -24,11 +24,12 @@ class Obj:
 class World:
     """shared bookkeeping of one run: invocation counter, event log, fault plan"""
 
-    def __init__(self, fault_at=None, fault_cls=ValueError):
+    def __init__(self, faults=(), fault_cls=ValueError):
         self.calls = 0
         self.events = []
-        self.fault_at = fault_at
+        self.faults = set(faults)
         self.fault_cls = fault_cls
+        self.snap_ids = []          # per probe call: (identities of the frames bottom..top, level)
 
 
 class Fn:
@@ -40,7 +41,7 @@ class Fn:
         n = w.calls
         w.calls += 1
         w.events.append(['call', self.fid])
-        if w.fault_at is not None and n == w.fault_at:
+        if n in w.faults:
             raise w.fault_cls('fault')
         return self.result
 
@@ -56,6 +57,7 @@ class Probe:
         for f in reversed(md._data):
             frames.append(summarize(f))
         self.world.events.append(['snap', frames, md.level])
+        self.world.snap_ids.append(([id(f) for f in md._data], md.level))
         return None
 
 
@@ -120,6 +122,8 @@ class Gen:
         self.probes = 0
         self.values = {}      # name -> abstract value (JSON form)
         self.subs = []        # sub-template programs (JSON blocks, source)
+        self.pool = NAMES
+        self.p_def = 0.75
 
     # abstract values in the driver's JSON form
     def v_int(self):
@@ -263,7 +267,8 @@ def gen_expr(g, name_pool):
     return ['lit', r.choice([0, 1, {'s': 'lit'}])]
 
 
-def gen_src(g, pool=NAMES):
+def gen_src(g, pool=None):
+    pool = pool or g.pool
     if g.r.random() < 0.3:
         return ['e', gen_expr(g, pool)]
     return ['n', g.r.choice(pool)]
@@ -442,12 +447,18 @@ def print_block(b):
 
 # --------------------------------------------------------------------------- whole cases
 
-def gen_case(r, depth=3):
+def gen_case(r, depth=3, robust=False):
     g = Gen(r, depth)
+    if robust:
+        # mostly-succeeding programs with many callable invocations (fault injection needs invocation points)
+        g.pool = [n for n in NAMES if not n.startswith('undefined')] * 3 + ['f', 'g', 'f', 'g', 'sub0'] * 3 + ['undefined1']
+        g.p_def = 1.0
     ns = {}
     for n in ['x', 'y', 'p', 'q', 'k', 'flag']:
-        if r.random() < 0.75:
+        if r.random() < g.p_def:
             ns[n] = g.any_val() if r.random() < 0.5 else g.simple_val()
+            if robust and r.random() < 0.5:
+                ns[n] = g.v_fn()
     ns['f'] = g.v_fn()
     ns['g'] = g.v_fn({'l': [g.item_val() for _ in range(r.randint(0, 2))]}) if r.random() < 0.5 else g.v_fn()
     ns['o1'] = g.v_obj()
@@ -484,26 +495,54 @@ def gen_case(r, depth=3):
     return case
 
 
-def model_req(case, fault_at=None, fault_cls='ValueError'):
+def wrap_case(case):
+    """run the generated template as a sub-template of a driver that snapshots the namespace before and after and
+    catches whatever it raises:  probe, try: <prog>, except: -, probe"""
+    c = dict(case)
+    inner = [dict(t) for t in case['templates']]
+    # renumber template references: old id i -> i + 1
+    def shift(v):
+        if isinstance(v, dict):
+            if 'T' in v:
+                return {'T': v['T'] + 1}
+            return {k: shift(x) for k, x in v.items()}
+        if isinstance(v, list):
+            return [shift(x) for x in v]
+        return v
+    inner = shift(inner)
+    outer_blocks = [['call', ['e', ['call', ['name', 'probe']]]],
+                    ['try', [['var', ['n', 'prog'], False, None, None]], [['', [['lit', 'CAUGHT']]]], None],
+                    ['call', ['e', ['call', ['name', 'probe']]]]]
+    outer = {'blocks': outer_blocks, 'globals': [], 'vars': [], 'source': print_blocks(outer_blocks)}
+    c['templates'] = [outer] + inner
+    c['main'] = 0
+    c['clients'] = shift(case['clients'])
+    c['mapping'] = shift(case['mapping'])
+    c['kw'] = shift(case['kw']) + [['prog', {'T': case['main'] + 1}]]
+    # the inner main template's own defaults stay with it (pushed when it is called by name)
+    return c
+
+
+def model_req(case, faults=(), fault_cls='ValueError'):
     req = {'op': 'render', 'templates': [{'blocks': t['blocks'], 'globals': t['globals'], 'vars': t['vars']}
                                          for t in case['templates']],
            'main': case['main'], 'clients': case['clients'], 'mapping': case['mapping'], 'kw': case['kw'],
            'classes': case['classes'], 'denied': case['denied'], 'guard': case['guard'], 'utf8': case['utf8'],
            'fuel': 200000}
-    if fault_at is not None:
-        req['faultAt'] = fault_at
+    if faults:
+        req['faults'] = list(faults)
         req['faultCls'] = fault_cls
     return req
 
 
-def run_impl(case, fault_at=None, fault_cls='ValueError', guard=None):
+def run_impl(case, faults=(), fault_cls='ValueError', guard=None):
     """execute the case on the real classes; returns dict(result=…, events=…, calls=…)"""
     import sys
     from DocumentTemplate import HTML
     if sys.getrecursionlimit() < 20000:
         # let the template engine's own recursion guard (level > 200) fire, as under Zope
         sys.setrecursionlimit(20000)
-    world = World(fault_at, CLASSES[fault_cls][0])
+    world = World(faults, CLASSES[fault_cls][0])
     cls = HTML
     if guard is not None:
         cls = guard(world)
@@ -530,7 +569,7 @@ def run_impl(case, fault_at=None, fault_cls='ValueError', guard=None):
         res = {'raise': 'RecursionError', 'msg': ''}
     except Exception as e:  # noqa
         res = {'raise': type(e).__name__, 'msg': exc_msg(e)}
-    return {'result': res, 'events': world.events, 'calls': world.calls}
+    return {'result': res, 'events': world.events, 'calls': world.calls, 'snap_ids': world.snap_ids}
 
 
 def exc_msg(e):
